@@ -345,6 +345,17 @@ class Client(BaseClient):
             message.EnableBLOB(device=device, value=const.BLOBEnable.ONLY)
         )
 
+    def process_blob_message(self, msg: IndiMessage):
+        """Processes messages arriving on the BLOB connection.
+
+        Until the server has seen `enableBLOB Only` that connection also
+        carries a copy of the ordinary traffic. Only BLOB updates are taken
+        from it: the copy is not ordered with respect to the control
+        connection and would overwrite newer state with older.
+        """
+        if isinstance(msg, message.SetBLOBVector):
+            self.process_message(msg)
+
     async def start(self):
         """Starts client and connects to the server.
 
@@ -354,7 +365,7 @@ class Client(BaseClient):
             self.process_message
         )
         self.blob_connection_handler = await self.blob_connection.connect(
-            self.process_message, for_blobs=True
+            self.process_blob_message, for_blobs=True
         )
 
         asyncio.get_running_loop().create_task(
